@@ -64,8 +64,7 @@ class LoopMixin:
         if type(it).__name__ == "SortedKeys":
             return "sorted", it
         if isinstance(it, Sym) and it.kind == "opt":
-            k = z3.Const("k!top", T.Key)
-            return "kset", KSetV([("big", [k], T.haskey_top(it.term, k), [("one", k)])])
+            return "kset", KSetV([("term", T.topkeys(it.term))])
         raise Unsupported(f"iteration over {it!r}")
 
     # ------------------------------------------------------------------ sub-exploration
